@@ -247,8 +247,16 @@ def gen_md(rng, n):
         return None
     if c < 0.45:
         return core.gen_md(rng, ["x"] * n, kind=rng.choice(["text", "num", "tax", "mixed"]))
+    if c < 0.55:
+        # values that are equal in Python and different as JSON values, on neighbouring IDs, same keys
+        twins = [True, 1, 1.0, False, 0, 0.0, 2 ** 53, float(2 ** 53), "1", None, [1], [1.0], [True]]
+        k1, k2 = rng.choice(["paired", "id", "metadata"]), rng.choice(["n", "rows", "shape"])
+        return [{k1: rng.choice(twins), k2: rng.choice(twins)} for _ in range(n)]
     md = []
     keys = [gen_str(rng) for _ in range(rng.randint(1, 3))]
+    if rng.random() < 0.2:
+        # categories named like members of the document
+        keys = rng.sample(["id", "metadata", "rows", "columns", "data", "shape", "type", "date", "format", "S0", "O0"], rng.randint(1, 3))
     for _ in range(n):
         if rng.random() < 0.12:
             md.append(None if rng.random() < 0.5 else {})
@@ -532,9 +540,25 @@ class _FixedDT(datetime.datetime):
         return cls(2022, 2, 3, 4, 5, 6, 789)
 
 
+# a compressed document is recognised by its content: the name it is stored under, the number of gzip members and
+# the compression level must not matter; a plain document stored under a name ending in .gz is still plain
+GZ_NAMES = [".gz", ".biom", "", ".GZ", ".gzip", ".json", ".txt.gz", ".biom.gz.bak", ".h5", ".tsv"]
+_GZ_TURN = [0]
+
+
+def write_gzip(path, text, members=1, level=9):
+    data = text.encode("utf-8")
+    cuts = [len(data) * k // members for k in range(members + 1)]
+    with open(path, "wb") as f:
+        for a, b in zip(cuts, cuts[1:]):
+            f.write(gzip.compress(data[a:b], compresslevel=level))
+
+
 EXTRA_READERS = ["load_table_pathlib", "load_table_handle", "parse_table_text", "parse_table_dense_flag", "from_json_dense_flag",
                  "from_json_data_pump", "from_json_direct", "parse_table_lines_direct", "load_table_gzip_direct",
-                 "parse_table_splitlines_keepends", "parse_table_split_newline", "from_json_same_dict_twice"]
+                 "parse_table_splitlines_keepends", "parse_table_split_newline", "from_json_same_dict_twice",
+                 "load_table_plain_named_gz", "parse_table_gzip_handle", "load_table_gzip_handle", "from_json_falsy_dense_flag",
+                 "parse_table_falsy_flags"]
 
 
 def run_case(ctx, t, gen_by, date, tags=(), label=None, want_text=True, opts=None):
@@ -560,8 +584,14 @@ def run_case(ctx, t, gen_by, date, tags=(), label=None, want_text=True, opts=Non
              nontrivial=(len(inp["obs"]) * len(inp["samp"]) >= 2 or nnz >= 1))
     p = os.path.join(TMP, "t_%d.biom" % os.getpid())
     pd = p + ".direct"
-    pz = p + ".gz"
-    pzd = p + ".direct.gz"
+    _GZ_TURN[0] += 1
+    gz_name = opts.get("gz_name", GZ_NAMES[_GZ_TURN[0] % len(GZ_NAMES)])
+    gz_members = opts.get("gz_members", [1, 1, 2, 3][(_GZ_TURN[0] // len(GZ_NAMES)) % 4])
+    case["opts"]["gz_name"], case["opts"]["gz_members"] = gz_name, gz_members
+    pz = p + ".z" + gz_name
+    pzd = p + ".direct.z" + gz_name
+    ppl = p + ".plain.gz"
+    susp = []
     old_dt = BT.datetime
     stack = contextlib.ExitStack()
     try:
@@ -579,17 +609,30 @@ def run_case(ctx, t, gen_by, date, tags=(), label=None, want_text=True, opts=Non
         try:
             writer = opts.get("writer", "file")
 
-            def write_string():
+            positional = bool(opts.get("positional"))
+
+            def stress():
                 if opts.get("poke"):
                     case["opts"].setdefault("poked", []).append(core.poke_layout(t, opts["poke"]))
-                return t.to_json(gen_by, creation_date=date)
+                    if opts["poke"].random() < 0.3 and t.shape[0] and t.shape[1]:
+                        # an iterator of the caller's left suspended across the write
+                        it = t.iter(axis=opts["poke"].choice(["sample", "observation"]))
+                        next(it)
+                        susp.append(it)
+
+            def write_string():
+                stress()
+                if positional:
+                    return t.to_json(gen_by, None, date)
+                return t.to_json(generated_by=gen_by, creation_date=date) if opts.get("poke") else \
+                    t.to_json(gen_by, creation_date=date)
 
             def write_direct():
-                if opts.get("poke"):
-                    case["opts"].setdefault("poked", []).append(core.poke_layout(t, opts["poke"]))
+                stress()
                 if writer == "file":
                     with open(pd, "w", encoding="utf-8") as f:
-                        ret = t.to_json(gen_by, direct_io=f, creation_date=date)
+                        ret = t.to_json(gen_by, f, date) if positional else \
+                            t.to_json(gen_by, direct_io=f, creation_date=date)
                     with open(pd, encoding="utf-8") as f:
                         out = f.read()
                 elif writer == "stringio_reused":
@@ -645,8 +688,7 @@ def run_case(ctx, t, gen_by, date, tags=(), label=None, want_text=True, opts=Non
             # a document is put into a file as UTF-8 (what load_table reads)
             with open(p, "w", encoding="utf-8") as f:
                 f.write(text)
-            with gzip.open(pz, "wb") as f:
-                f.write(text.encode("utf-8"))
+            write_gzip(pz, text, gz_members, [9, 1, 6][_GZ_TURN[0] % 3])
         except UnicodeEncodeError as e:
             ctx.fail(case, "string:not-encodable-as-utf8", list(tags), detail=str(e)[:300])
             return None
@@ -674,9 +716,17 @@ def run_case(ctx, t, gen_by, date, tags=(), label=None, want_text=True, opts=Non
                 return load_table(f)
 
         def gz_direct():
-            with gzip.open(pzd, "wb") as f:
-                f.write(text_d.encode("utf-8"))
+            write_gzip(pzd, text_d, gz_members)
             return load_table(pzd)
+
+        def plain_named_gz():
+            with open(ppl, "w", encoding="utf-8") as f:
+                f.write(text)
+            return load_table(ppl)
+
+        def gz_handle(reader):
+            with gzip.open(pz, "rt", encoding="utf-8") as f:
+                return reader(f)
 
         def pump():
             d = json.loads(text)
@@ -707,6 +757,11 @@ def run_case(ctx, t, gen_by, date, tags=(), label=None, want_text=True, opts=Non
             "parse_table_splitlines_keepends": lambda: parse_table(text_d.splitlines(True)),
             "parse_table_split_newline": lambda: parse_table(text.split("\n")),
             "from_json_same_dict_twice": same_dict_twice,
+            "load_table_plain_named_gz": plain_named_gz,
+            "parse_table_gzip_handle": lambda: gz_handle(parse_table),
+            "load_table_gzip_handle": lambda: gz_handle(load_table),
+            "from_json_falsy_dense_flag": lambda: Table.from_json(json.loads(text), input_is_dense=__import__("numpy").False_),
+            "parse_table_falsy_flags": lambda: parse_table(io.StringIO(text), None, "sample", 0),
         }
         for name in opts.get("extra", ()):
             readers.append((name, extra[name]))
@@ -716,7 +771,8 @@ def run_case(ctx, t, gen_by, date, tags=(), label=None, want_text=True, opts=Non
     finally:
         BT.datetime = old_dt
         stack.close()
-        for q in (p, pd, pz, pzd):
+        del susp[:]
+        for q in (p, pd, pz, pzd, ppl):
             if os.path.exists(q):
                 os.remove(q)
     req = {"table": inp, "generated_by": gen_by_x, "date": date_s, "toks": xp(toks), "toks_direct": xp(toks_d),
@@ -752,6 +808,8 @@ def rand_opts(rng):
     if rng.random() < 0.5:
         o["direct_first"] = True
     o["writer"] = rng.choice(["file", "file", "stringio", "minimal", "stringio_reused"])
+    if rng.random() < 0.3:
+        o["positional"] = True
     o["extra"] = rng.sample(EXTRA_READERS, rng.choice([0, 1, 2, 2]))
     if rng.random() < 0.5:
         o["shuffle"] = rng
@@ -983,6 +1041,10 @@ def convert_spec(rng, omd, smd, n=None, m=None):
     return spec
 
 
+def spec_input(spec):
+    return {"obs": spec["obs"], "samp": spec["samp"], "rows": [[core.frac(v) for v in r] for r in spec["rows"]]}
+
+
 def write_convert_input(t, fmt, path):
     import h5py
     if fmt == "json":
@@ -1030,8 +1092,13 @@ def convert_case(ctx, rng, spec, fmt, flags, mapping=None, tags=(), obs_mapping=
             t = core.build(spec, "dense")
             write_convert_input(t, fmt, pin)
             tin = load_table(pin)
-        except Exception as e:  # noqa   (writing / reading the other formats is not this property's business)
-            ctx.count("convert-input-skipped:%s" % type(e).__name__)
+        except Exception as e:  # noqa
+            if fmt in ("json", "json.gz"):
+                # a (compressed) JSON document read by path is one of this property's readers
+                ctx.fail({"table": xp(spec_input(spec)), "label": label}, "load_table:raised", ["convert", fmt, "input"] + list(tags),
+                         detail=xp("%s: %s" % (type(e).__name__, e)))
+            else:    # writing / reading the other formats is not this property's business
+                ctx.count("convert-input-skipped:%s" % type(e).__name__)
             return
         expect = table_input(tin)
         expect["table_id"] = str(tin.table_id)     # what the input file carries ("None", or HDF5's placeholder)
@@ -1082,6 +1149,7 @@ def convert_case(ctx, rng, spec, fmt, flags, mapping=None, tags=(), obs_mapping=
             if os.path.exists(pout):
                 os.remove(pout)
             env = dict(os.environ, PYTHONPATH=core.REPO, **sub_env)
+            env["PYTHONHASHSEED"] = str(rng.randint(1, 4000000))       # nothing may depend on set / dict hashing order
             t_before = datetime.datetime.now()
             r = subprocess.run([sys.executable, "-c",
                                 "import sys; from biom.cli import cli; sys.argv[0] = 'biom'; cli()", "convert"] + args,
